@@ -484,7 +484,7 @@ Proof.
     pose proof (remove_meta_inv s key i (EvMetaRemove (i_id i)) I LK HC) as I1.
     destruct (async s); simpl; [exact I1|]. apply cleanup_inv. exact I1.
   - (* Cleanup *)
-    unfold do_cleanup. destruct (closed s); [exact I|]. destruct (Nat.eqb (seq s) 0); [exact I|].
+    unfold do_cleanup. destruct (closed s); [exact I|].
     simpl. apply cleanup_inv. exact I.
   - (* Update *)
     unfold do_update. destruct (closed s); [exact I|].
